@@ -162,6 +162,16 @@ C('orthogonalize_right', 'copy', lambda g: ((tt(g, [3, 4, 2]), 2), {}))
 C('orthogonalize_right', 'inplace', lambda g: ((tt(g, [3, 4, 2, 3]), 2, True),
     {}), inplace=(2, 1))
 C('truncate', 'default', lambda g: ((tt(g, [3, 4, 2], 3),), {}))
+def _decay(Y, q=1e-4):
+    for G in Y:
+        G *= (q ** np.arange(G.shape[2]))[None, None, :]
+    return Y
+
+
+C('truncate', 'default-decaying-spectrum', lambda g: ((_decay(tt(g, [4, 5, 4],
+    3)),), {}))
+C('truncate', 'e-decaying-spectrum', lambda g: ((_decay(tt(g, [4, 5, 4], 3)),
+    1e-6), {}))
 C('truncate', 'svd-mode', lambda g: ((tt(g, [3, 4, 2], 3), 1e-2, 2), dict(
     is_eigh=False)))
 C('truncate', 'stab', lambda g: ((tt(g, [3, 4, 2], 3), 1e-2), dict(
